@@ -336,3 +336,66 @@ CHECKS["C08"] = {
         {"name": "TestKnown_LeaderLostTailDiverges", "quick": {}, "thorough": {}},
     ],
 }
+
+CHECKS["C20"] = {
+    "pkg": "./c20/",
+    "level": "exploration",
+    "technique": ("model-based property testing (rapid) of pkg/trie, index/model.TrieBucket(+Builder) and index/v1 IndexKVFlusher/Reader/Merger against a linear-scan sorted-map model; "
+                  "round trip through Write/UnmarshalBinary, a real kv store and a real level-0 compaction with the registered IndexKVMergerV1; native fuzz target with keys decoded from bytes"),
+    "rule": ("generated key sets of 1..5000 distinct NON-EMPTY byte strings in 8 styles (alphabets {a,b}, {a,b,c,-}, {00,01,a,FE,FF}, {00,FF}, any byte, fixed 8-byte hashes as the series dictionary stores them, "
+             "host/ip/path-like words with shared heads and tails, 3..1000-byte shared prefixes), grown by extension / proper prefix / sibling / shared-suffix steps; values arbitrary uint32 (trie) or distinct sequence ids (bucket); "
+             "probes: every present key, proper prefixes incl. the empty key, extensions by 00/FF/alphabet, siblings, +-1 neighbours, fresh keys; like patterns x*, *x, *x*, x, **; 16 regexp shapes from ASCII literals; "
+             "block sizes 1..n and 32767; 1..4 dictionaries per bucket; 1..3 rounds of 1..3 flushes + compaction. "
+             "case non-trivial = some key is a proper prefix of another key, or the bucket under test consists of >= 2 tries; distinct = hash of the sorted (key,value) pairs (+ block sizes / per-dictionary split)"),
+    "level_text": ("Generated-input exploration against an independent reference model (sorted slice, every query answered by a linear scan): Get (present, absent, proper prefixes, extensions, empty probe), Size, Values, "
+                   "forward and backward iteration, Seek followed by Next/Prev walks, PrefixIterator, identical for the in-memory trie, the trie loaded from Write(), a pooled trie that held another dictionary and a reused builder; "
+                   "TrieBucket GetValue/GetValues/Suggest/FindValuesByLike/FindValuesByRegexp/CollectKVs over buckets split into many tries, after TrieBucket.Write, through IndexKVFlusher->kv family->IndexKVReader, "
+                   "through IndexKVMerger.Merge on the raw values, and after a real synchronous level-0 compaction: always the union of the flushed pairs."),
+    "level_note": ("Reference semantics for regexp = Go unanchored Match as the in-memory path of index/kv_store.go; like decomposition copied from kv_store.go. The raw Iterator.Seek is only required to stand on the first key >= target or on its "
+                   "predecessor (lindb's own TestSeekKeys pins 'always valid'; its only production user PrefixIterator is checked strictly). "
+                   "Key sets containing the empty key, and one key in two dictionaries of a bucket, are informational classes that cannot fail (no production writer produces them)."),
+    "assumptions": ["stored keys are non-empty (all ingestion paths reject empty metric names / tag values; namespace is addressed by its first byte; series keys are 8 bytes)",
+                    "keys of the dictionaries of one bucket are pairwise distinct (a key is looked up on disk before an id is created; the C09 race is out of scope here)",
+                    "ids inside one bucket are distinct (sequence)", "regular expressions and like patterns are valid UTF-8 text (they arrive as SQL); stored keys may be any bytes",
+                    "like pattern '*' alone is not generated here (C10 domain)"],
+    "tests": [
+        {"name": "TestModelSelf", "quick": {}, "thorough": {}},
+        {"name": "TestTrieSortedMap", "quick": 3000, "thorough": {"checks": 12000, "shards": 12}},
+        {"name": "TestTrieBuilderReuse", "quick": 600, "thorough": {"checks": 5000, "shards": 4}},
+        {"name": "TestBucketSortedMap", "quick": 1500, "thorough": {"checks": 5000, "shards": 12}},
+        {"name": "TestFlushReadMerge", "quick": 600, "thorough": {"checks": 2000, "shards": 12}},
+        {"name": "TestInfoEmptyKeyStored", "quick": 300, "thorough": {"checks": 3000, "shards": 1}},
+        {"name": "TestInfoDuplicateKeyAcrossDictionaries", "quick": 100, "thorough": {"checks": 1000, "shards": 1}},
+        {"name": "TestRegression_TrieGetEmptyKeyOnLone0xFF", "quick": {}, "thorough": {}},
+        {"name": "TestRegression_SuggestMultiTrieKeyAliasing", "quick": {}, "thorough": {}},
+        {"name": "TestRegression_RegexpLiteralPrefixUnanchored", "quick": {}, "thorough": {}},
+    ],
+    "fuzz": [{"name": "FuzzTrie", "seconds": 120}],
+}
+
+CHECKS["C09"] = {
+    "pkg": "./c09/",
+    "level": "exploration",
+    "technique": ("(a) real-goroutine rounds released by a barrier running the production worker call sequences, (b) stateful PBT (rapid) with "
+                  "production-order flush cycles, creators nested at FS seams inside Flush (harness-owned schedule), reopen and crash images; "
+                  "reference model name->id + recovered-node oracle; goroutine stress of creators next to running flush cycles"),
+    "rule": ("TestConcurrentAssign: case = 30 rounds (thorough 60) of k=2..8 goroutines (metadata worker, index worker of shard i on ITS index db, metadata calls of further shards) on one meta db shared "
+             "by 1-3 index dbs, PrepareFlush/Flush steps between rounds; non-trivial = some row with a new name given to >=2 goroutines in one round. TestHistory: write/flushStep/reopen/crash state machine; "
+             "non-trivial = >=1 recovered image inside a Flush with ids handed out after the last sequence sync; every recovered image is one distinct case of group crash-points. "
+             "TestConcurrentFlushStress: iteration non-trivial = >=1 flush cycle ran next to the workers. distinct = hash of rounds / history(+image tag)"),
+    "level_text": ("Exploration. Part (a) and the stress test are schedule dependent by nature (Go scheduler); they run thousands of barrier rounds so that a missing re-check is hit with probability ~1 "
+                   "(each defect seeded back was hit within the first 1-25 rounds / 20 stress iterations) and report the recorded round. Part (b) is deterministic per seed: sampled crash points (quick: <=8 per flush, "
+                   "<=6 recovered per crash action; thorough: <=40) recovered through NewMetricMetaDatabase/NewMetricIndexDatabase on the copied directory."),
+    "level_note": ("Process-crash model (image = copy of the directory incl. the mmap'd sequence file). Oracle scopes: metric / tag key / tag value ids unique per database, "
+                   "field ids per metric, series ids per (index db, metric). Namespace ids are only observed through metric ids. Suggest* is left to C20; whether tag names of a FOUND series survived a crash is C07. "
+                   "rapid reports part (a) failures as 'flaky test' with the original traceback = the recorded round."),
+    "assumptions": ["one goroutine per index database (as memdb's index worker)", "flush protocol of dataFlushChecker.doFlush / database.Close",
+                    "names are non-empty, unchanged by sanitising", "lindb leaks LRU janitor goroutines per opened store (not the harness)"],
+    "tests": [
+        {"name": "TestConcurrentAssign", "quick": 150, "thorough": {"checks": 400, "shards": 8}},
+        {"name": "TestConcurrentAssignRace", "thorough": {"checks": 150, "shards": 4, "race": True}},
+        {"name": "TestConcurrentFlushStress", "quick": {}, "thorough": {"race": True, "timeout": 3000}},
+        {"name": "TestHistory", "quick": 60, "thorough": {"checks": 150, "shards": 16}},
+        {"name": "TestRegression_.*", "quick": {}, "thorough": {}},
+    ],
+}
